@@ -34,8 +34,8 @@ theorem append_root_last {f : Forest} (w : f.W) {p t : Nat} {tt : HTree} (ck : C
   simp only [structureCheck_of_checked ck, hlast, Bool.not_true, Bool.false_eq_true, if_false]
   have : ((none : Option Nat) == some t) = false := rfl
   simp only [this, Bool.false_eq_true, if_false]
-  rw [prevSibling_none_of_root hpn, removeConsolidate_none_left]
-  simp only [hlast, addConsolidate_none, Bool.false_eq_true, if_false]
+  rw [prevSibling_none_of_root hpn, fa_removeConsolidate_none_left]
+  simp only [hlast, fa_addConsolidate_none, Bool.false_eq_true, if_false]
   unfold checkedAppend
   have hcond : (p = t || (f.ancestors p).contains t) = false := by
     simp [ck.ne w, ck.notAnc]
